@@ -143,6 +143,11 @@ TEMPLATES = [
     ("dec_both_decos", 0, "@fi('s')\n@fi('t')\ndef d{n}():\n  pass"),
     ("dec_cls_two", 0, "@nope\nclass K{n}(nope2):\n  pass"),
     ("dec_sig_ml", 0, "@fi('s')\ndef d{n}(a,\n    b=fi('t')):\n  pass"),
+    # import errors (a trailing `type: ignore` on an import line is special-cased by the VM)
+    ("imp_mod", 0, "import nosuchmod\nx{n} = nosuchmod.z"),
+    ("imp_from", 0, "from nosuchmod import z\nx{n} = z"),
+    ("imp_from_mixed", 0, "from collections import OrderedDict, nosuch\nx{n} = OrderedDict()"),
+    ("imp_sub", 0, "import collections.nosuch\nx{n} = collections.OrderedDict()"),
     ("dec_static", 0, "class K{n}:\n  @staticmethod\n  def s() -> int:\n    return 's'\n  @property\n  def p(self) -> int:\n    return A().nope"),
     # --- multi-line def / return / annotated assignment / compound headers
     ("def_ml_param", 1, "def r{n}(a,\n    b: int = 's'):\n  pass"),
